@@ -407,7 +407,17 @@ impl<'a, C: Crypto> CaseResponder<'a, C> {
                     // Only now do we add this message to the TT Hash
                     let mut peer_catids: NocCatIds = Default::default();
                     initiator_noc.get_cat_ids(&mut peer_catids)?;
-                    self.casep.update_tt(exchange.rx()?.payload())?;
+                    // Hash the Sigma3 structure itself, i.e. what the initiator hashed: bytes
+                    // that trail the structure in the received message are not part of it, and
+                    // would otherwise give the two ends different session keys.
+                    let payload = exchange.rx()?.payload();
+                    let value = req.raw_value()?;
+                    let end = (value.as_ptr() as usize)
+                        .checked_sub(payload.as_ptr() as usize)
+                        .and_then(|start| start.checked_add(value.len()))
+                        .ok_or(crate::error::ErrorCode::InvalidData)?;
+                    self.casep
+                        .update_tt(payload.get(..end).ok_or(crate::error::ErrorCode::InvalidData)?)?;
 
                     let mut session_keys = MaybeUninit::<CaseSessionKeys>::uninit(); // TODO MEDIM BUFFER
                     let session_keys = session_keys.init_with(CaseSessionKeys::init());
